@@ -81,6 +81,7 @@ fn rule_conn_starved(ctx: &Ctx, out: &mut Vec<Violation>) {
             Req::GetSub { .. } => "GetSubscription",
             Req::Ack { .. } => "Acknowledge",
             Req::Pull { immediate: true, .. } => "Pull(return_immediately)",
+            Req::Publish { .. } => "Publish",
             _ => continue,
         };
         if c.abandon_at > 0 {
